@@ -80,13 +80,22 @@ def observe(arg):
         try:
             k = t["kind"]
             if k == "mix":
-                fs = [build(e) for e, q in t["comps"]]
                 qs = [q for e, q in t["comps"]]
                 args = []
-                for f, q in zip(fs, qs):
-                    args += [f, q]
-                fn = formulas.mix_by_weight if t["mode"] == "weight" else formulas.mix_by_volume
                 kw = {}
+                if t.get("strings"):
+                    # components as text, read by the mixing function itself with table=T (T2 has its own masses / densities)
+                    from .formexec import _tab
+                    tab = _tab(t.get("T"))
+                    fs = [P.formula(e[1], table=tab) for e, q in t["comps"]]
+                    for (e, q) in t["comps"]:
+                        args += [e[1], q]
+                    kw["table"] = tab
+                else:
+                    fs = [build(e) for e, q in t["comps"]]
+                    for f, q in zip(fs, qs):
+                        args += [f, q]
+                fn = formulas.mix_by_weight if t["mode"] == "weight" else formulas.mix_by_volume
                 if "density" in t:
                     kw["density"] = t["density"]
                 res, r = result_of(lambda: fn(*args, **kw))
@@ -101,7 +110,8 @@ def observe(arg):
                 except Exception as e:
                     out.append({"ev": "harness_exc", "id": t["id"], "exc": "component %s: %s" % (type(e).__name__, str(e)[:80]), "string": s})
                     continue
-                res, r = result_of(lambda: P.formula(s))
+                fkw = dict(t.get("kw") or {})          # keywords of formula() do not change what the text says
+                res, r = result_of(lambda: P.formula(s, **fkw))
                 ev = {"ev": "mixstr", "id": t["id"], "form": t["spec"]["form"], "parts": parts, "result": res, "string": s,
                       "total_mass": dec.enc(getattr(r, "total_mass", None)) if r is not None else {"k": "none"},
                       "thickness": dec.enc(getattr(r, "thickness", None)) if r is not None else {"k": "none"}}
